@@ -224,7 +224,32 @@ def compare(ob, repo_prog, ref_prog, module, fname, same_term, backend='ecdsa'):
     where = fi.where
     ob.require(sig_a == sig_b, '%s: number of parameters and default values equal the reference' % fname, where,
                expected=sig_b, found=sig_a)
-    _cmp_recs(ob, a, b, fname, where, same_term)
+    # a difference expressed with operators the reference algorithm never uses is a re-expression whose equivalence this
+    # comparison cannot judge (UNDECIDED); a difference inside the reference's own vocabulary is a different algorithm
+    vocab = set()
+    _vocab_of(b, vocab)
+
+    def st(ob_, found, expected, what, where_=None):
+        return same_term(ob_, found, expected, what, where_, vocab=vocab)
+    _cmp_recs(ob, a, b, fname, where, st)
+
+
+def _vocab_of(recs, out):
+    def walk(t):
+        if isinstance(t, tuple):
+            for x in T.walk(t):
+                if T.is_op(x):
+                    out.add(x[1])
+    for r in recs:
+        if r[0] == 'seq':
+            walk(r[1])
+        else:
+            walk(r[1][1])
+            for x in r[2] + r[4]:
+                if x is not None:
+                    walk(x)
+            _vocab_of(r[3], out)
+            _vocab_of(r[5], out)
 
 
 def _tl(t):
@@ -232,6 +257,12 @@ def _tl(t):
     if isinstance(t, tuple) and T.tag(t) == 'tuple' and all(T.is_const(x) for x in t[1]):
         return ('list', t[1])
     return t
+
+
+def _kind(t):
+    if isinstance(t, tuple) and T.tag(t) in ('list', 'tuple', 'dict'):
+        return 'list' if T.tag(t) in ('list', 'tuple') else 'dict'
+    return T.type_of(t)
 
 
 def _cmp_values(ob, xs, ys, what, where, same_term):
@@ -244,6 +275,11 @@ def _cmp_values(ob, xs, ys, what, where, same_term):
             continue
         if x is None or y is None:
             ob.require(False, '%s: loop-carried variable #%d is initialised on one side only' % (what, i), where)
+            continue
+        tx, ty = _kind(x), _kind(y)
+        if tx is not None and ty is not None and tx != ty:
+            ob.undecided('%s, loop-carried variable #%d: the loop state is represented differently (%s instead of %s); '
+                         'term-level comparison not possible' % (what, i, tx, ty), where)
             continue
         same_term(ob, _tl(x), _tl(y), '%s, loop-carried variable #%d' % (what, i), where)
 
